@@ -288,6 +288,11 @@ def r2_rr(F, res):
                         c.append(("variant", "|".join(sorted(v)) if isinstance(v, frozenset) else v))
                     elif t[0] == "bin" and t[1] == "Eq" and t[3] == ("const", 0):
                         c.append(("len==0", v))
+                    elif t[0] == "bin" and t[1] == "Ne" and t[3] == ("const", 0) and v in (0, 1):
+                        c.append(("len==0", 1 - v))
+                    elif t[0] == "vfield" and str(t[2]) == "Reduce" and str(t[3]) == "1" and v in (0, "other"):
+                        # `Action::Reduce(_, 0)` as a literal pattern: a switch on the length itself
+                        c.append(("len==0", 1 if v == 0 else 0))
                     else:
                         c.append((fmt(t)[:40], v))
                 conds.append((tuple(c), val((cond, ret))))
